@@ -22,6 +22,7 @@ import (
 	"fmt"
 	"math/rand/v2"
 	"sort"
+	"strconv"
 	"strings"
 	"sync"
 	"sync/atomic"
@@ -619,7 +620,12 @@ func (sr *sessionRun) findByRID(name string, rid int) {
 		domainForm := fmt.Sprintf("(objectSid=%s-%d)", refSIDString(match[0].domainAuth, match[0].domainSubs), rid)
 		builtinForm := fmt.Sprintf("(objectSid=S-1-5-32-%d)", rid)
 		r.Eval(1)
-		if q.filter != domainForm && !(rid >= 544 && rid <= 583 && q.filter == builtinForm) {
+		// the SID asked for, whatever the filter's spelling (string form, or the octets escaped as \hh)
+		asked, understood := sidOfFilter(q.filter)
+		switch {
+		case !understood:
+			r.Count("session_rid_lookup_filter_not_judged", 1)
+		case "(objectSid="+asked+")" != domainForm && !(rid >= 544 && rid <= 583 && "(objectSid="+asked+")" == builtinForm):
 			r.Violation("ldap.Session.FindObjectSIDByRID:filter", fmt.Sprintf("FindObjectSIDByRID(%q, %d) searched for %s, the object with that RID in that domain is %s", name, rid, q.filter, domainForm), cs)
 			return
 		}
@@ -661,6 +667,34 @@ func (sr *sessionRun) findByRID(name string, rid int) {
 			r.Violation("ldap.Session.FindObjectSIDByRID:value:several", fmt.Sprintf("FindObjectSIDByRID(%q, %d): %d objects were sent, the call returned %q which is the text of none of them", name, rid, len(q.sent), got), cs)
 		}
 	}
+}
+
+// sidOfFilter reads the SID an (objectSid=...) equality filter asks for: the string form, or
+// the binary form with every octet escaped (RFC 4515). Anything else is not understood.
+func sidOfFilter(f string) (string, bool) {
+	if !strings.HasPrefix(f, "(objectSid=") || !strings.HasSuffix(f, ")") {
+		return "", false
+	}
+	v := f[len("(objectSid=") : len(f)-1]
+	if strings.HasPrefix(v, "S-") {
+		return v, true
+	}
+	var b []byte
+	for i := 0; i < len(v); {
+		if v[i] != '\\' || i+2 >= len(v) {
+			return "", false
+		}
+		x, err := strconv.ParseUint(v[i+1:i+3], 16, 8)
+		if err != nil {
+			return "", false
+		}
+		b = append(b, byte(x))
+		i += 3
+	}
+	if t := refSIDFromBytes(b); t != "" {
+		return t, true
+	}
+	return "", false
 }
 
 var sessionUnavailable atomic.Bool
